@@ -19,7 +19,17 @@
 //!   * calm-rollback oracle (`rollback_restores`): a rollback of a transaction none of whose rows was interfered
 //!     with after a lock expiry answers Ok,
 //!   * index oracle: every index-served answer equals the filter of the full-scan image (no missing row, no
-//!     duplicate), finished-transaction oracle, lock-release / lock-expiry oracles.
+//!     duplicate), finished-transaction oracle, lock-release / lock-expiry oracles,
+//!   * foreign-lock oracle (`release_keeps_foreign_locks` / `held_lock_survives_others`): the holder of every row
+//!     is read before and after EVERY statement other than a tick; a row held by an open transaction that the
+//!     statement did not end must still be held by it — in particular after another transaction's commit /
+//!     rollback / timeout cleanup (class `relational_engine.row_lock/foreign_lock_released_at_tx_end`), which is
+//!     what breaks when `release` drops a taken-over key still listed under the OLD holder,
+//!   * takeover-rollback oracle: a rollback restores the pre-image of every row the transaction wrote that nobody
+//!     else has changed since — also when the row had been taken over from a timed-out holder.
+//! The takeover scenarios (A writes r, A's lock times out, B writes r, A ends by commit | rollback | timeout
+//! cleanup while B is open, C tries to write r, B rolls back) run first as directed scripts and, with random
+//! statements around that skeleton, as the stream `takeover`.
 //! Time: the engine reads the wall clock (no hook); lock timeouts exist in whole seconds only.  Timeout
 //! scripts run on an engine with `lock_timeout_secs = 1` (and `transaction_timeout_secs = 1` for the tx sweep),
 //! `tick` = a real sleep of 1100 ms, everything else must take < 400 ms or the script is discarded.
@@ -222,6 +232,8 @@ struct Hd {
     wrote: BTreeMap<Key, WKind>,
     lock_time: BTreeMap<Key, u64>,
     interfered: BTreeSet<Key>,
+    /// rows of `first_touch` whose full-scan image was changed by somebody else's statement / rollback afterwards
+    clobbered: BTreeSet<Key>,
 }
 
 #[derive(Default)]
@@ -257,6 +269,8 @@ struct World {
     /// why a row may legitimately/illegitimately differ: "hole" | "expiry" | "cleanup"
     taint: BTreeMap<Key, &'static str>,
     idx_reported: BTreeSet<usize>,
+    /// highest row id ever seen alive, per table
+    hi: Vec<u64>,
     vnow: u64,
     lock_ms: u64,
     tx_ms: u64,
@@ -289,6 +303,7 @@ impl World {
             log: vec![],
             taint: BTreeMap::new(),
             idx_reported: BTreeSet::new(),
+            hi: vec![],
             vnow: 0,
             lock_ms: cfg.lock_secs * 1000,
             tx_ms: cfg.tx_secs * 1000,
@@ -347,6 +362,23 @@ impl World {
         } else {
             v.iter().map(|x| x.to_string()).collect::<Vec<_>>().join(",")
         }
+    }
+    /// `row_lock_holder` of every row id that can carry a lock (real transaction ids): ids are never reused, so
+    /// every id up to the highest one ever seen alive (+4) is asked — also rows that are dead by now
+    fn holders(&mut self, imgs: &[Image]) -> BTreeMap<Key, u64> {
+        let mut m = BTreeMap::new();
+        for t in 0..self.ntables.min(imgs.len()) {
+            if self.hi.len() <= t {
+                self.hi.resize(t + 1, 0);
+            }
+            self.hi[t] = self.hi[t].max(imgs[t].keys().max().copied().unwrap_or(0));
+            for id in 1..=(self.hi[t] + 4) {
+                if let Some(r) = self.eng.tx_manager().row_lock_holder(&Self::tname(t), id) {
+                    m.insert((t, id), r);
+                }
+            }
+        }
+        m
     }
     fn active_handles(&self) -> Vec<usize> {
         self.handles.iter().filter(|(_, h)| h.state == HState::Active).map(|(k, _)| *k).collect()
@@ -467,6 +499,7 @@ fn exec_script(ops: &[Op], cfg: Cfg, mut model: Option<&mut Model>) -> Outcome {
     for (step, op) in ops.iter().enumerate() {
         out.steps_done = step + 1;
         let before = w.images();
+        let holders_before = if matches!(op, Op::Tick(_) | Op::Sweep) { BTreeMap::new() } else { w.holders(&before) };
         let r_real = w.exec_real(op);
         let site = op.site();
         if !matches!(op, Op::Sweep) {
@@ -519,6 +552,19 @@ fn exec_script(ops: &[Op], cfg: Cfg, mut model: Option<&mut Model>) -> Outcome {
         }
         if !diff.is_empty() {
             out.nontrivial = true;
+            // whose statement this is; every OTHER open transaction that wrote one of the changed rows no longer
+            // finds it as it left it
+            let actor: Option<usize> = match op {
+                Op::TxInsert(h, ..) | Op::TxUpdate(h, ..) | Op::TxDelete(h, ..) | Op::Commit(h) | Op::Rollback(h) => Some(*h),
+                _ => None,
+            };
+            for (k, _, _) in &diff {
+                for (g, hd) in w.handles.iter_mut() {
+                    if Some(*g) != actor && hd.state == HState::Active && hd.first_touch.contains_key(k) {
+                        hd.clobbered.insert(*k);
+                    }
+                }
+            }
         }
 
         // ---- oracles on the implementation's own behaviour
@@ -619,6 +665,7 @@ fn exec_script(ops: &[Op], cfg: Cfg, mut model: Option<&mut Model>) -> Outcome {
             }
         }
         let mut ended: Option<usize> = None;
+        let mut ended_all: Vec<usize> = vec![];
         match op {
             Op::Commit(h) | Op::Rollback(h) => {
                 let was_active = w.handles.get(h).is_some_and(|x| x.state == HState::Active);
@@ -642,6 +689,7 @@ fn exec_script(ops: &[Op], cfg: Cfg, mut model: Option<&mut Model>) -> Outcome {
                     }
                     w.handles.get_mut(h).unwrap().state = HState::Committed;
                     ended = Some(*h);
+                    ended_all.push(*h);
                 } else {
                     if r_real == "err rollback_failed" {
                         out.hit("rollback_failed_returned");
@@ -656,6 +704,18 @@ fn exec_script(ops: &[Op], cfg: Cfg, mut model: Option<&mut Model>) -> Outcome {
                     for (k, pre) in &hd.first_touch {
                         if hd.interfered.contains(k) {
                             out.hit("rollback_of_interfered_row");
+                            // the row was shared with another open transaction (lock expiry / takeover); if nobody
+                            // else has changed it since this transaction's first write, the rollback must still
+                            // put back exactly what this transaction found
+                            if !hd.clobbered.contains(k) {
+                                out.hit("rollback_of_taken_over_row_checked");
+                                let now_v = after.get(k.0).and_then(|img| img.get(&k.1)).cloned();
+                                if &now_v != pre {
+                                    out.viol("relational_engine.rollback/row_not_restored".into(),
+                                             format!("row {k:?} (shared with another transaction after a lock expiry, unchanged by anybody else \
+                                                      since): before the transaction's first write {pre:?}, after rollback {now_v:?}"), step);
+                                }
+                            }
                             continue;
                         }
                         let now_v = after.get(k.0).and_then(|img| img.get(&k.1)).cloned();
@@ -671,6 +731,7 @@ fn exec_script(ops: &[Op], cfg: Cfg, mut model: Option<&mut Model>) -> Outcome {
                         }
                     }
                     ended = Some(*h);
+                    ended_all.push(*h);
                 }
             },
             Op::CleanupTxs => {
@@ -684,6 +745,7 @@ fn exec_script(ops: &[Op], cfg: Cfg, mut model: Option<&mut Model>) -> Outcome {
                     }
                     out.hit("tx_expired_by_cleanup");
                     ended = Some(h);
+                    ended_all.push(h);
                 }
             },
             Op::Tick(_) => {
@@ -703,6 +765,53 @@ fn exec_script(ops: &[Op], cfg: Cfg, mut model: Option<&mut Model>) -> Outcome {
                 }
             },
             _ => {},
+        }
+        // foreign-lock oracle (`release_keeps_foreign_locks`, `held_lock_survives_others`): a row held before the
+        // statement by a transaction that is still open afterwards is still held by it.  The engine's clock is the
+        // wall clock, so a lock within 600 ms of its timeout (virtual age) is not judged.
+        if !holders_before.is_empty() {
+            let holders_after = w.holders(&after);
+            for (k, r) in &holders_before {
+                let Some((g, hd)) = w.handles.iter().find(|(_, hd)| hd.real == *r) else { continue };
+                if hd.state != HState::Active || holders_after.get(k) == Some(r) {
+                    continue;
+                }
+                let age = w.vnow - hd.lock_time.get(k).copied().unwrap_or(w.vnow);
+                if age + 600 > w.lock_ms {
+                    out.hit("foreign_lock_check_skipped_near_expiry");
+                    continue;
+                }
+                let now_h = match holders_after.get(k) {
+                    Some(x) => match w.handles.iter().find(|(_, h2)| h2.real == *x) {
+                        Some((g2, _)) => format!("h{g2}"),
+                        None => "an internal transaction".to_string(),
+                    },
+                    None => "nobody".to_string(),
+                };
+                if !ended_all.is_empty() {
+                    out.viol("relational_engine.row_lock/foreign_lock_released_at_tx_end".into(),
+                             format!("{} ended {:?}; row {k:?} was locked by open transaction h{g} ({age} ms ago, timeout {} ms) and is now \
+                                      locked by {now_h}: the end of one transaction removed another transaction's live row lock",
+                                     op.show(), ended_all.iter().map(|h| format!("h{h}")).collect::<Vec<_>>(), w.lock_ms), step);
+                } else {
+                    out.viol("relational_engine.row_lock/held_lock_lost_without_tx_end".into(),
+                             format!("{}: row {k:?} was locked by open transaction h{g} ({age} ms ago, timeout {} ms) and is now locked by \
+                                      {now_h} although h{g} did not end", op.show(), w.lock_ms), step);
+                }
+            }
+            if !ended_all.is_empty() {
+                out.hit("foreign_lock_check_at_tx_end");
+                if holders_before.values().any(|r| w.handles.values().any(|hd| hd.real == *r && hd.state == HState::Active)) {
+                    out.hit("foreign_lock_check_at_tx_end:other_open_tx_holds_locks");
+                }
+                // the situation `release` must get right: a row the ended transaction had locked (its key is still in
+                // that transaction's list) is by now held by another open transaction
+                if ended_all.iter().any(|h| w.handles[h].wrote.keys().any(|k| holders_before.get(k).is_some_and(|r| {
+                    *r != w.handles[h].real && w.handles.values().any(|hd| hd.real == *r && hd.state == HState::Active)
+                }))) {
+                    out.hit(&format!("old_holder_ended_while_new_holder_open:{site}"));
+                }
+            }
         }
         if let Some(h) = ended {
             // lock release oracle
@@ -883,6 +992,7 @@ fn new_hd(real: u64, model: u64, now: u64) -> Hd {
         wrote: BTreeMap::new(),
         lock_time: BTreeMap::new(),
         interfered: BTreeSet::new(),
+        clobbered: BTreeSet::new(),
     }
 }
 
@@ -1023,6 +1133,27 @@ fn directed() -> Vec<(&'static str, Cfg, Vec<Op>)> {
         v
     };
     let mut out = vec![];
+    // FIRST: lock takeover, then the OLD holder ends while the NEW holder is open (`release_keeps_foreign_locks`,
+    // `taken_over_lock_survives_old_holder_end`).  A = h0 writes rows 1 and 3 and idles past the lock timeout (not the
+    // transaction timeout); B = h1 takes row 1 over by update and row 3 by delete; A ends — commit | rollback |
+    // cleanup_expired (lock 2 s / tx 3 s: A times out at 3.2 s while B's 1.1 s old locks are fresh); after every
+    // statement the foreign-lock oracle requires B to still hold its rows; C = h2 and non-transactional statements on
+    // B's rows must get a lock conflict; B's rollback puts back what B found; then C gets through.
+    let slow = Cfg { lock_secs: 2, tx_secs: 3 };
+    for (name, cfg, first_tick, end_a) in [
+        ("takeover_old_holder_commits", short, 1100u64, vec![Commit(0)]),
+        ("takeover_old_holder_rolls_back", short, 1100, vec![Rollback(0)]),
+        ("takeover_old_holder_cleaned_up", slow, 2100, vec![Tick(1100), CleanupTxs, Commit(0)]),
+    ] {
+        let mut s = base(true);
+        s.extend([Begin(0), TxUpdate(0, 0, Cond::Id(1), vec![(0, 4)]), TxUpdate(0, 0, Cond::Id(3), vec![(1, 0)]), Tick(first_tick),
+                  Begin(1), TxUpdate(1, 0, Cond::Id(1), vec![(0, 5)]), TxDelete(1, 0, Cond::Id(3))]);
+        s.extend(end_a);
+        s.extend([Begin(2), TxUpdate(2, 0, Cond::Id(1), vec![(0, 0)]), TxDelete(2, 0, Cond::Id(1)), TxUpdate(2, 0, Cond::Id(3), vec![(0, 0)]),
+                  TxUpdate(2, 0, Cond::All, vec![(1, 2)]), Update(0, Cond::Id(1), vec![(0, 0)]), Delete(0, Cond::Id(1)), Sweep,
+                  Rollback(1), Sweep, TxUpdate(2, 0, Cond::Id(1), vec![(1, 3)]), Commit(2), Sweep]);
+        out.push((name, cfg, s));
+    }
     // basic: rollback of insert+update+delete with both index kinds on the same column
     let mut s = base(true);
     s.extend([Begin(0), TxInsert(0, 0, vec![4, 4]), TxUpdate(0, 0, Cond::Id(1), vec![(0, 5)]), TxDelete(0, 0, Cond::Id(2)),
@@ -1134,6 +1265,95 @@ fn gen_timeout_script(rng: &mut Rng) -> (Cfg, Vec<Op>) {
     (cfg, ops)
 }
 
+/// random statements around the takeover skeleton: A writes, A's locks time out, B writes (often the same rows),
+/// A ends while B is open (commit | rollback | timeout cleanup), C and non-transactional statements try B's rows,
+/// B and C end in random order
+fn gen_takeover_script(rng: &mut Rng) -> (Cfg, Vec<Op>) {
+    let cleanup = rng.chance(1, 5);
+    let cfg = if cleanup { Cfg { lock_secs: 2, tx_secs: 3 } } else { Cfg { lock_secs: 1, tx_secs: 60 } };
+    let mut ops = vec![Op::CreateTable, Op::CreateIndex(0, 0), Op::CreateBtree(0, 1)];
+    for _ in 0..3 {
+        ops.push(Op::Insert(0, gen_vals(rng)));
+    }
+    let write = |rng: &mut Rng, h: usize, wide: bool| -> Op {
+        let c = if wide && rng.chance(1, 3) { Cond::All } else { gen_cond(rng, 4) };
+        match rng.below(8) {
+            0..=4 => Op::TxUpdate(h, 0, c, gen_upd(rng)),
+            5..=6 => Op::TxDelete(h, 0, c),
+            _ => Op::TxInsert(h, 0, gen_vals(rng)),
+        }
+    };
+    ops.push(Op::Begin(0));
+    ops.push(Op::TxUpdate(0, 0, if rng.chance(1, 2) { Cond::All } else { gen_cond(rng, 3) }, gen_upd(rng)));
+    for _ in 0..rng.below(3) {
+        ops.push(write(rng, 0, true));
+    }
+    ops.push(Op::Tick(if cleanup { 2100 } else { 1100 }));
+    if rng.chance(1, 4) {
+        ops.push(Op::CleanupLocks);
+    }
+    ops.push(Op::Begin(1));
+    for _ in 0..rng.range(1, 3) {
+        ops.push(write(rng, 1, true));
+    }
+    if rng.chance(1, 3) {
+        ops.push(write(rng, 0, false));
+    }
+    // the old holder ends while the new holder is open
+    if cleanup {
+        ops.extend([Op::Tick(1100), Op::CleanupTxs]);
+    } else {
+        ops.push(if rng.chance(1, 2) { Op::Commit(0) } else { Op::Rollback(0) });
+    }
+    ops.push(Op::Begin(2));
+    for _ in 0..rng.range(1, 3) {
+        ops.push(write(rng, 2, true));
+    }
+    if rng.chance(1, 2) {
+        ops.push(if rng.chance(1, 2) { Op::Update(0, gen_cond(rng, 4), gen_upd(rng)) } else { Op::Delete(0, gen_cond(rng, 4)) });
+    }
+    if rng.chance(1, 3) {
+        ops.push(Op::CleanupLocks);
+    }
+    if rng.chance(1, 2) {
+        ops.push(write(rng, 1, false));
+    }
+    let mut open = vec![1usize, 2];
+    rng.shuffle(&mut open);
+    for (n, h) in open.into_iter().enumerate() {
+        ops.push(if rng.chance(1, 2) { Op::Rollback(h) } else { Op::Commit(h) });
+        if n == 0 && rng.chance(1, 2) {
+            let other = if h == 1 { 2 } else { 1 };
+            ops.push(write(rng, other, true));
+        }
+    }
+    ops.push(Op::Sweep);
+    (cfg, ops)
+}
+
+/// Scripts with real sleeps run concurrently, each on its own engine and its own model driver process (they spend
+/// their time asleep).  A script discarded by the timing guard is retried twice.  Results in input order.
+fn run_sleepers(driver: &str, jobs: Vec<(Cfg, Vec<Op>)>) -> Vec<Outcome> {
+    let handles: Vec<std::thread::JoinHandle<Outcome>> = jobs
+        .into_iter()
+        .map(|(cfg, ops)| {
+            let driver = driver.to_string();
+            std::thread::spawn(move || {
+                let mut out = Outcome::default();
+                for _ in 0..3 {
+                    let mut m = Model::spawn(&driver);
+                    out = exec_script(&ops, cfg, Some(&mut m));
+                    if !out.discarded {
+                        break;
+                    }
+                }
+                out
+            })
+        })
+        .collect();
+    handles.into_iter().map(|h| h.join().expect("sleeper thread panicked")).collect()
+}
+
 // ------------------------------------------------------------------ main
 
 struct Tally {
@@ -1169,7 +1389,12 @@ fn absorb(rep: &mut Report, tally: &mut Tally, stream: &str, cfg: Cfg, ops: &[Op
             let cls = class.clone();
             script = shrink_list(&script, &mut |cand: &[Op]| exec_script(cand, cfg, None).violations.iter().any(|v| v.0 == cls));
         }
-        let what2 = exec_script(&script, cfg, None).violations.into_iter().find(|v| v.0 == class).map(|v| v.1).unwrap_or(what);
+        // (a script with ticks is not shrunk: it is the prefix that was just run, its message is the one recorded)
+        let what2 = if script.iter().any(|o| matches!(o, Op::Tick(_))) {
+            what
+        } else {
+            exec_script(&script, cfg, None).violations.into_iter().find(|v| v.0 == class).map(|v| v.1).unwrap_or(what)
+        };
         rep.violation(&class, &what2, json!({
             "cfg": {"lock_timeout_secs": cfg.lock_secs, "transaction_timeout_secs": cfg.tx_secs},
             "script": script.iter().map(|o| o.show()).collect::<Vec<_>>(),
@@ -1188,9 +1413,40 @@ fn main() {
     let root = Rng::new(args.seed);
     let long = Cfg { lock_secs: 30, tx_secs: 60 };
 
-    // 1. directed scenarios
-    for (name, cfg, ops) in directed() {
-        let out = exec_script(&ops, cfg, Some(&mut model));
+    // 1. directed scenarios (the ones with real sleeps run concurrently on their own engines / model processes; the
+    //    random sleeping scripts of streams 4 and 5 are started now as well and collected at the end)
+    let dir = directed();
+    let has_tick = |ops: &Vec<Op>| ops.iter().any(|o| matches!(o, Op::Tick(_)));
+    let dir_sleepers = {
+        let jobs: Vec<(Cfg, Vec<Op>)> = dir.iter().filter(|d| has_tick(&d.2)).map(|d| (d.1, d.2.clone())).collect();
+        let driver = args.driver.clone();
+        std::thread::spawn(move || run_sleepers(&driver, jobs))
+    };
+    let mut rng = root.fork("timeouts");
+    let timeout_jobs: Vec<(Cfg, Vec<Op>)> = (0..if args.thorough { 60 } else { 8 }).map(|_| gen_timeout_script(&mut rng)).collect();
+    let mut rng = root.fork("takeover");
+    let takeover_jobs: Vec<(Cfg, Vec<Op>)> = (0..if args.thorough { 72 } else { 16 }).map(|_| gen_takeover_script(&mut rng)).collect();
+    let rnd_sleepers = {
+        let jobs: Vec<(Cfg, Vec<Op>)> = timeout_jobs.iter().chain(takeover_jobs.iter()).cloned().collect();
+        let driver = args.driver.clone();
+        // at most 24 scripts asleep at a time
+        std::thread::spawn(move || {
+            let mut outs = vec![];
+            for chunk in jobs.chunks(24) {
+                outs.extend(run_sleepers(&driver, chunk.to_vec()));
+            }
+            outs
+        })
+    };
+    let mut quick_outs: Vec<Outcome> = dir.iter().filter(|d| !has_tick(&d.2)).map(|d| exec_script(&d.2, d.1, Some(&mut model))).collect();
+    quick_outs.reverse();
+    let mut sleeper_outs = dir_sleepers.join().expect("directed sleepers panicked");
+    sleeper_outs.reverse();
+    for (name, cfg, ops) in dir {
+        let out = if has_tick(&ops) { sleeper_outs.pop().unwrap() } else { quick_outs.pop().unwrap() };
+        if out.discarded {
+            rep.note(&format!("directed scenario {name} was discarded by the timing guard three times: NOT checked in this run"));
+        }
         rep.hit(&format!("directed:{name}"));
         if rep.samples.len() < 4 {
             rep.sample(json!({"scenario": name, "script": ops.iter().map(|o| o.show()).collect::<Vec<_>>(),
@@ -1242,13 +1498,17 @@ fn main() {
         }
         absorb(&mut rep, &mut tally, "interleave_ddl", long, &ops, out, true);
     }
-    // 4. lock / transaction timeouts (real sleeps)
-    let mut rng = root.fork("timeouts");
-    let n = if args.thorough { 60 } else { 8 };
-    for _ in 0..n {
-        let (cfg, ops) = gen_timeout_script(&mut rng);
-        let out = exec_script(&ops, cfg, Some(&mut model));
-        absorb(&mut rep, &mut tally, "timeouts", cfg, &ops, out, false);
+    // 4. lock / transaction timeouts, 5. lock takeover with the old holder ending first (real sleeps; started above)
+    let mut outs = rnd_sleepers.join().expect("random sleepers panicked");
+    outs.reverse();
+    for (cfg, ops) in &timeout_jobs {
+        absorb(&mut rep, &mut tally, "timeouts", *cfg, ops, outs.pop().unwrap(), false);
+    }
+    for (i, (cfg, ops)) in takeover_jobs.iter().enumerate() {
+        if i < 1 {
+            rep.sample(json!({"stream": "takeover", "script": ops.iter().map(|o| o.show()).collect::<Vec<_>>()}));
+        }
+        absorb(&mut rep, &mut tally, "takeover", *cfg, ops, outs.pop().unwrap(), false);
     }
 
     rep.expected_branches = [
@@ -1260,6 +1520,10 @@ fn main() {
         "op:create_btree_index:index_exists", "op:drop_index:ok", "op:drop_index:index_not_found", "op:drop_btree_index:ok",
         "op:drop_btree_index:index_not_found", "op:cleanup_expired_locks:ok", "op:cleanup_expired:ok", "op:lock_timeout:ok",
         "write_after_lock_expiry", "tx_expired_by_cleanup", "quiescent_check",
+        "foreign_lock_check_at_tx_end:other_open_tx_holds_locks", "rollback_of_taken_over_row_checked",
+        "old_holder_ended_while_new_holder_open:commit", "old_holder_ended_while_new_holder_open:rollback",
+        "old_holder_ended_while_new_holder_open:cleanup_expired",
+        "directed:takeover_old_holder_commits", "directed:takeover_old_holder_rolls_back", "directed:takeover_old_holder_cleaned_up",
         "directed_reproduced:relational_engine.rollback/index_entry_not_restored",
         "directed_reproduced:relational_engine.rollback/committed_write_undone_after_lock_expiry",
         "directed_reproduced:relational_engine.rollback/duplicate_row_in_index_answer",
